@@ -836,6 +836,29 @@ pub fn transfer_to_new_account(
     )
 }
 
+#[allow(clippy::too_many_arguments)]
+pub fn transfer_to_new_account_pda(group: Pubkey, old_account: Pubkey, authority: Pubkey, fee_payer: Pubkey, new_authority: Pubkey, global_fee_wallet: Pubkey, index: u16, third: Option<u16>) -> (Pubkey, Ix) {
+    let new_account = account_pda(&group, &new_authority, index, third);
+    (
+        new_account,
+        mk(
+            A::TransferToNewAccountPda {
+                group,
+                old_marginfi_account: old_account,
+                new_marginfi_account: new_account,
+                authority,
+                fee_payer,
+                new_authority,
+                global_fee_wallet,
+                instructions_sysvar: sysvar::instructions::id(),
+                system_program: system_program::id(),
+            },
+            I::TransferToNewAccountPda { account_index: index, third_party_id: third },
+            vec![],
+        ),
+    )
+}
+
 pub fn settle_emissions(account: Pubkey, bank: Pubkey) -> Ix {
     mk(A::LendingAccountSettleEmissions { marginfi_account: account, bank }, I::LendingAccountSettleEmissions {}, vec![])
 }
